@@ -161,7 +161,13 @@ type SortInfo struct {
 
 // Decls collects the declarations (sorts, datatypes, functions, axioms, constants) that
 // the queries of one verification unit need, in dependency order.
+type tmplInst struct {
+	tmpl string
+	sub  map[string]string
+}
+
 type Decls struct {
+	insts []tmplInst
 	order []string
 	seen  map[string]bool
 	sorts map[string]*SortInfo
@@ -307,6 +313,29 @@ func (d *Decls) StructOf(name string, fields, fsorts []string, goT types.Type) s
 	return n
 }
 
+// useLemmaAll instantiates library lemma `name` for every instantiation of the template it
+// belongs to (lemma:<Template>:<name>) and returns the instantiated formulas.
+func (d *Decls) useLemmaAll(name string) []string {
+	var out []string
+	seen := map[string]bool{}
+	for _, in := range append([]tmplInst(nil), d.insts...) {
+		text, ok := d.specs.Templates["lemma:"+in.tmpl+":"+name]
+		if !ok {
+			continue
+		}
+		for k, v := range in.sub {
+			text = strings.ReplaceAll(text, "{"+k+"}", v)
+		}
+		if seen[text] {
+			continue
+		}
+		seen[text] = true
+		d.decl("uselemma:"+text, "(assert "+text+") ; @derived")
+		out = append(out, text)
+	}
+	return out
+}
+
 // useLemma adds a lemma of the library as an axiom for one list/trace sort.
 func (d *Decls) useLemma(kind, name, sort string) bool {
 	key := "lemma:" + kind + ":" + name
@@ -336,6 +365,7 @@ func (d *Decls) instantiate(tmpl string, sub map[string]string) {
 		keys = append(keys, k)
 	}
 	sort.Strings(keys)
+	d.insts = append(d.insts, tmplInst{tmpl, sub})
 	id := tmpl
 	for _, k := range keys {
 		text = strings.ReplaceAll(text, "{"+k+"}", sub[k])
